@@ -57,3 +57,12 @@ Proof.
   apply expected_group_is_gen_group; [|exact H]. apply chain_ok_sound. vm_compute. reflexivity.
 Qed.
 Print Assumptions C01_source_group_is_the_model.
+
+(** returnValue (behind Program.Ret) in the source has the shape `if a == ActionErrno { a |= Action(errnoEPERM) }; return
+    uint32(a)` - the translator recognises the shape on the syntax tree and reports the two constants - which is the
+    model's [ret_word]: EPERM is or-ed into the errno action, every other action is returned verbatim *)
+Theorem C01_source_return_value_is_the_model :
+  return_value_template = Some ("ActionErrno", "errnoEPERM")%string /\
+  forall k a, ret_word k a = if a =? k_errno k then N.lor a (k_eperm k) else a.
+Proof. split; reflexivity. Qed.
+Print Assumptions C01_source_return_value_is_the_model.
